@@ -4,8 +4,8 @@
    (the documents).  `fs_exists` / `populate` stand for the file system
    (vfs.exists, GopherEntry.populatefromvfs) and are universally quantified. *)
 From Coq Require Import String ZArith.
-From PG Require Import Lib.Str Lib.PyInt Model.Entry Model.Render0 Model.Gophermap Model.GophermapSpec
-  Proofs.C09Facts.
+From PG Require Import Lib.Str Lib.PyInt Model.Selector Model.Entry Model.Render0 Model.Gophermap Model.GophermapSpec
+  Proofs.C09Facts Corr.K09 Proofs.C09Lookup.
 Local Open Scope N_scope.
 
 (* ---- exactly one entry per line, in file order ---- *)
@@ -225,3 +225,25 @@ Example C09_example :
   = Some [Some (lit "1Lots of stuff"%string ++ T9 ++ lit "/lotsa/stuff"%string ++ T9 ++
                 lit "gopher.somenetwork.com"%string ++ T9 ++ lit "7070"%string ++ [13; 10])].
 Proof. exact C09Facts.wf_example. Qed.
+
+(* ---- the repaired lookup (D34, /repo 10ac772): a link whose selector the request filter refuses (`../../x`,
+   `/../x`, `a//b` ...) is listed as written and NOTHING is looked up for it -- whatever the file system holds, inside
+   an archive or not; so the entry cannot depend on anything outside the root ---- *)
+Theorem C09_insecure_link_not_looked_up :
+  forall existing populate e,
+    is_secure (e_selector e) = false -> populate_local (k_exists existing) populate e = e.
+Proof. exact insecure_link_not_looked_up. Qed.
+Print Assumptions C09_insecure_link_not_looked_up.
+
+Theorem C09_insecure_link_not_looked_up_zip :
+  forall zipname members outside populate e,
+    is_secure (e_selector e) = false -> populate_local (k_exists_zip zipname members outside) populate e = e.
+Proof. exact insecure_link_not_looked_up_zip. Qed.
+Print Assumptions C09_insecure_link_not_looked_up_zip.
+
+Theorem C09_insecure_link_independent_of_the_file_system :
+  forall ex1 ex2 populate1 populate2 e,
+    is_secure (e_selector e) = false ->
+    populate_local (k_exists ex1) populate1 e = populate_local (k_exists ex2) populate2 e.
+Proof. exact insecure_link_independent. Qed.
+Print Assumptions C09_insecure_link_independent_of_the_file_system.
